@@ -175,7 +175,7 @@ class Source:
 # --------------------------------------------------------------------------------------
 KEEP_DERIVES = {"Clone", "Copy", "PartialEq", "Eq", "Debug", "PartialOrd", "Ord"}
 DROP_ATTR_RE = re.compile(
-    r"^\s*#\[(account|zero_copy|repr|error_code|msg|inline|allow|cfg_attr|constant|must_use|event|doc|deprecated|access_control|instruction|cold)\b")
+    r"^\s*#\[(account|zero_copy|repr|error_code|msg|inline|allow|cfg_attr|constant|must_use|event|doc|deprecated|access_control|instruction|cold|default|non_exhaustive)\b")
 
 
 def filter_attr_lines(lines, log):
@@ -374,6 +374,7 @@ class Gen:
         tags = list(self.tags)
         stub = stub_all
         nodec = False
+        make_pub = False
         rename = None
         k = 0
         while k < len(opts):
@@ -391,6 +392,8 @@ class Gen:
                 stub = False
             elif o == "nodec":
                 nodec = True
+            elif o == "pub":
+                make_pub = True
             elif o.startswith("as="):
                 rename = o[3:]
             else:
@@ -482,6 +485,9 @@ class Gen:
         sig_out = sig
         if binder:
             sig_out = self._bind_result(sig, sig_mask, binder, name, rel)
+        if make_pub and not re.match(r"\s*pub\b", sig_out):
+            sig_out = re.sub(r"^(\s*)", r"\1pub ", sig_out, count=1)
+            self.log.append(f"note: visibility of {rel}::{name} widened to pub (module layout of the generated crate)")
         if rename:
             sig_out = re.sub(r"\bfn\s+" + re.escape(name) + r"\b", "fn " + rename, sig_out, count=1)
         # R4: `_` parameters
